@@ -89,9 +89,14 @@ impl AggregateState {
 
     pub(crate) fn update(&mut self, func: &AggregateFunction, row: &ExecutorRow) {
         match func {
-            AggregateFunction::Count { distinct: _ } => {
-                self.count += 1;
-            }
+            AggregateFunction::Count { column, .. } => match column {
+                Some(column) => {
+                    if row.get(*column).is_some_and(|val| !matches!(val, Value::Null)) {
+                        self.count += 1;
+                    }
+                }
+                None => self.count += 1,
+            },
             AggregateFunction::Sum { column } => {
                 if let Some(val) = row.get(*column) {
                     match val {
